@@ -22,8 +22,12 @@ REPO = "/repo"
 PY = "/venv/bin/python"
 
 
-def sh(cmd, cwd=None, env=None, timeout=3600):
-    r = subprocess.run(cmd, shell=True, cwd=cwd, env=env, capture_output=True, text=True, timeout=timeout)
+def sh(cmd, cwd=None, env=None, timeout=1500):
+    try:
+        r = subprocess.run(cmd, shell=True, cwd=cwd, env=env, capture_output=True, text=True, timeout=timeout)
+    except subprocess.TimeoutExpired:
+        subprocess.run("ps -eo pid,args | grep -E '[p]ython -m mc C' | awk '{print $1}' | xargs -r kill", shell=True)
+        return 124, f"timed out after {timeout}s: {cmd}"
     return r.returncode, r.stdout + r.stderr
 
 
